@@ -287,6 +287,7 @@ func c07(r *core.Run) {
 
 	root := p.FuncsOfPkg("")
 	models := c04Models(r, "P1")
+	c07ReplySubjectNonEmpty(r, "P2", root)
 
 	// ---- P1 ----------------------------------------------------------------
 	funnelFns := map[*ssa.Function]bool{}
@@ -1356,4 +1357,110 @@ func blockAlwaysReplies(p *core.Prog, b *ssa.BasicBlock, funnels map[*ssa.Functi
 		}
 	}
 	return false
+}
+
+// c07ReplySubjectNonEmpty: a message without a reply subject never becomes a
+// request: in every function that receives a message first (the service's
+// message handler, the query request handler) every use of the message other
+// than reading its members - queueing it, storing it into a request, handing
+// it on - is behind the "reply subject is not empty" edge. Everything that
+// later publishes on the request's reply subject (replies, and the timeout
+// pre-response, which does not go through the reply funnel) relies on it.
+func c07ReplySubjectNonEmpty(r *core.Run, rule string, root []*ssa.Function) {
+	p := r.P
+	msgParam := func(fn *ssa.Function) *ssa.Parameter {
+		for _, prm := range fn.Params {
+			pt, isP := prm.Type().Underlying().(*types.Pointer)
+			if !isP {
+				continue
+			}
+			if nm, isN := pt.Elem().(*types.Named); isN && nm.Obj().Name() == "Msg" && nm.Obj().Pkg() != nil && strings.HasSuffix(nm.Obj().Pkg().Path(), "nats.go") {
+				return prm
+			}
+		}
+		return nil
+	}
+	n := 0
+	for _, fn := range root {
+		if fn.Parent() != nil || len(fn.Blocks) == 0 {
+			continue
+		}
+		msg := msgParam(fn)
+		if msg == nil || msg.Referrers() == nil {
+			continue
+		}
+		// an entry: nobody who already holds a message calls it
+		entry := true
+		callers := p.CallersOf(fn)
+		for _, cs := range callers {
+			if msgParam(core.Outermost(cs.Parent())) != nil {
+				entry = false
+			}
+		}
+		if !entry || len(callers) == 0 {
+			continue
+		}
+		// the uses of the message that hand it on (reads of its members aside), seen through the
+		// cell go/ssa spills a captured parameter into
+		var uses []ssa.Instruction
+		var collect func(v ssa.Value, d int)
+		collect = func(v ssa.Value, d int) {
+			if v.Referrers() == nil || d > 4 {
+				return
+			}
+			for _, rf := range *v.Referrers() {
+				switch x := rf.(type) {
+				case *ssa.FieldAddr, *ssa.DebugRef:
+					continue
+				case *ssa.Store:
+					if al, isAl := x.Addr.(*ssa.Alloc); isAl && x.Val == v {
+						if al.Referrers() != nil {
+							for _, r2 := range *al.Referrers() {
+								switch y := r2.(type) {
+								case *ssa.UnOp:
+									collect(y, d+1)
+								case *ssa.Store, *ssa.DebugRef:
+								default:
+									uses = append(uses, r2)
+								}
+							}
+						}
+						continue
+					}
+					uses = append(uses, rf)
+				default:
+					uses = append(uses, rf)
+				}
+			}
+		}
+		collect(msg, 0)
+		for _, rf := range uses {
+			n++
+			guarded := false
+			for _, ed := range dominatingEdges(rf) {
+				for _, ft := range edgeFacts(ed) {
+					bo, ok := ft.V.(*ssa.BinOp)
+					if !ok || (bo.Op != token.EQL && bo.Op != token.NEQ) {
+						continue
+					}
+					x, y := bo.X, bo.Y
+					if _, isC := core.ConstString(x); isC {
+						x, y = y, x
+					}
+					k, isC := core.ConstString(y)
+					f, isF := core.LoadedField(x)
+					if !isC || k != "" || !isF || f.Name != "Reply" {
+						continue
+					}
+					if (bo.Op == token.NEQ) == ft.True {
+						guarded = true
+					}
+				}
+			}
+			r.Check(guarded, rule, core.FuncName(fn), "request-accepted-only-with-a-reply-subject", p.InstrPos(rf), "the message is used only on the edge where its reply subject is not empty", "a message without a reply subject is turned into a request: the response, or what the handler publishes on the request's reply subject outside the reply funnel (the timeout pre-response), goes out on the empty subject - not a valid NATS subject and none of the documented forms")
+		}
+	}
+	if n == 0 {
+		r.Unres(rule, "message-handler", "no function receives a message and hands it on")
+	}
 }
